@@ -147,8 +147,11 @@ def module_state_writes(m, fn):
     params = set(a.arg for a in fn.args.args + fn.args.kwonlyargs)
     local = set(n.id for st in iter_stmts(fn.body) if isinstance(st, (ast.Assign, ast.For, ast.With)) for n in ast.walk(st)
                 if isinstance(n, ast.Name) and isinstance(n.ctx, ast.Store)) - g
-    modlevel = set(k for k, v in m.assigns.items() if isinstance(v, (ast.List, ast.Dict, ast.Set, ast.ListComp, ast.DictComp)) or
-                   (isinstance(v, ast.Call) and dotted(v.func) in ('list', 'dict', 'set', 'OrderedDict', 'defaultdict', 'collections.OrderedDict')))
+    def _container(v):
+        return isinstance(v, (ast.List, ast.Dict, ast.Set, ast.ListComp, ast.DictComp)) or \
+            (isinstance(v, ast.Call) and dotted(v.func) in ('list', 'dict', 'set', 'OrderedDict', 'defaultdict', 'collections.OrderedDict')) or \
+            (isinstance(v, ast.BinOp) and isinstance(v.op, ast.Add) and (_container(v.left) or _container(v.right)))
+    modlevel = set(k for k, v in m.assigns.items() if _container(v))
     shared = (modlevel | g) - params - local
     for st in iter_stmts(fn.body):
         if isinstance(st, (ast.Assign, ast.AugAssign)):
@@ -163,6 +166,22 @@ def module_state_writes(m, fn):
         for c in ast.walk(st) if isinstance(st, ast.Expr) else []:
             if isinstance(c, ast.Call) and isinstance(c.func, ast.Attribute) and isinstance(c.func.value, ast.Name) and c.func.value.id in shared and c.func.attr in MUTATORS:
                 out.append((st, 'mutates module-level container %s (%s)' % (c.func.value.id, c.func.attr)))
+    # through an alias: `x = G` / `self.a = G` (the container itself, no copy) and then a mutating call / subscript store / del on x
+    alias = {}
+    for st in iter_stmts(fn.body):
+        if isinstance(st, ast.Assign) and len(st.targets) == 1 and isinstance(st.value, ast.Name) and st.value.id in shared and isinstance(st.targets[0], (ast.Name, ast.Attribute)):
+            alias[norm(st.targets[0])] = st.value.id
+        elif isinstance(st, ast.Assign) and len(st.targets) == 1 and norm(st.targets[0]) in alias:
+            del alias[norm(st.targets[0])]
+        if not alias:
+            continue
+        for c in ast.walk(st) if isinstance(st, (ast.Expr, ast.If, ast.Assign, ast.AugAssign, ast.Delete)) else []:
+            if isinstance(c, ast.Call) and isinstance(c.func, ast.Attribute) and c.func.attr in MUTATORS and norm(c.func.value) in alias and getattr(c, 'lineno', 0) >= st.lineno:
+                out.append((st if not isinstance(st, ast.If) else c, 'mutates module-level container %s through its alias %s (%s)' % (alias[norm(c.func.value)], norm(c.func.value), c.func.attr)))
+        if isinstance(st, ast.Delete):
+            for t in st.targets:
+                if isinstance(t, ast.Subscript) and norm(t.value) in alias:
+                    out.append((st, 'deletes from module-level container %s through its alias %s' % (alias[norm(t.value)], norm(t.value))))
     return out
 
 
@@ -320,8 +339,38 @@ def truthy_numeric_defaults(fn):
           if isinstance(d, ast.Constant) and d.value is None]
     if not nd:
         return []
-    return [(st, [n_ for n_ in nd if n_ in norm(st)][0]) for st in lints.truthy_optional_guards(fn, tuple(nd))
-            if any(numeric_param(fn, n_) and 'date' not in n_.lower() for n_ in nd if n_ in [x.id for x in ast.walk(st) if isinstance(x, ast.Name)])]
+    out = [(st, [n_ for n_ in nd if n_ in norm(st)][0]) for st in lints.truthy_optional_guards(fn, tuple(nd))
+           if any(numeric_param(fn, n_) and 'date' not in n_.lower() for n_ in nd if n_ in [x.id for x in ast.walk(st) if isinstance(x, ast.Name)])]
+    # `p = p or <tuple / list / number>`: the default shows the kind of value p holds, and that kind has a falsy member (the empty
+    # tuple of a scalar variable's dimensions, 0) which is a request, not an absence
+    for st in iter_stmts(fn.body):
+        if isinstance(st, ast.Assign) and len(st.targets) == 1 and isinstance(st.targets[0], ast.Name) and st.targets[0].id in nd and isinstance(st.value, ast.BoolOp) \
+                and isinstance(st.value.op, ast.Or) and isinstance(st.value.values[0], ast.Name) and st.value.values[0].id == st.targets[0].id:
+            d = st.value.values[-1]
+            if (isinstance(d, (ast.Tuple, ast.List)) and d.elts) or (isinstance(d, ast.Constant) and isinstance(d.value, (int, float)) and not isinstance(d.value, bool)):
+                if not any(s0 is st for s0, _ in out):
+                    out.append((st, st.targets[0].id))
+    return out
+
+
+def falsy_fill_tests(fn):
+    """a fill / missing value used as a truth value (if x / x or y / not x / x and y): 0 is a legitimate fill value and would count as
+    'no fill value'.  -> [(node, name)]"""
+    def isfill(n):
+        return isinstance(n, ast.Name) and n.id.lower().replace('_', '') in ('fillvalue', 'missingvalue', 'fillval', 'missval')
+    out = []
+    for n in ast.walk(fn):
+        tests = []
+        if isinstance(n, (ast.If, ast.While, ast.IfExp)):
+            tests.append(n.test)
+        if isinstance(n, ast.BoolOp):
+            tests += n.values
+        if isinstance(n, ast.UnaryOp) and isinstance(n.op, ast.Not):
+            tests.append(n.operand)
+        for t in tests:
+            if isfill(t):
+                out.append((n, t.id))
+    return out
 
 
 def broken_swaps(fn):
@@ -352,6 +401,27 @@ def reduced_default_dtype(fn):
                     out.append((s2, 'the one-letter code / scalar type (%s)' % norm(v)))
                 elif isinstance(v, ast.Call) and isinstance(v.func, ast.Attribute) and v.func.attr == 'typecode':
                     out.append((s2, 'the one-letter code (%s)' % norm(v)))
+    return out
+
+
+def kind_as_typecode(fn):
+    """`typecode / dtype / type = <...>.kind`: the kind letter of a dtype ('f', 'i', 'u') read as a type code names the 4-byte type of
+    that kind, whatever the width of the data was.  -> [(statement, text)]"""
+    out = []
+    dts = set()
+    for st in iter_stmts(fn.body):
+        if isinstance(st, ast.Assign) and len(st.targets) == 1 and isinstance(st.targets[0], ast.Name) and isinstance(st.value, ast.Attribute) and st.value.attr == 'dtype':
+            dts.add(st.targets[0].id)
+    for st in iter_stmts(fn.body):
+        if isinstance(st, ast.Assign) and len(st.targets) == 1 and isinstance(st.targets[0], ast.Name) and st.targets[0].id in ('typecode', 'dtype', 'type', 'vtype', 'tc'):
+            for x in ast.walk(st.value):
+                if isinstance(x, ast.Attribute) and x.attr == 'kind' and isinstance(x.ctx, ast.Load) and \
+                        ((isinstance(x.value, ast.Attribute) and x.value.attr == 'dtype') or (isinstance(x.value, ast.Name) and x.value.id in dts)):
+                    # a use inside a comparison (dt.kind == 'S') is a test, not the value
+                    par = getattr(x, '_parent', None)
+                    if isinstance(par, ast.Compare):
+                        continue
+                    out.append((st, norm(x)))
     return out
 
 
@@ -400,6 +470,7 @@ def run(ctx):
                  ('R-STALEVAR', 'no loop body reads the loop variable of an earlier, finished loop (bound nowhere else): it would hold that loop\'s last value for every iteration'),
                  ('R-GUARDOBJ', 'a `K not in A.dimensions / A.variables` guard adds K to A itself, not to another file'),
                  ('R-DTYPEFULL', 'the type a copy gets when none is requested is the complete dtype of the source, not its one-letter code'),
+                 ('R-TDSECONDS', 'an elapsed time is taken from total_seconds(), never from (a - b).seconds (which drops whole days)'),
                  ('R-SIBLING', 'neighbouring statements that differ by one role swap (x/y, COL/ROW, tau0/tau1, llod/ulod, B/E) are adapted in every leaf')):
         if r not in ctx.rules:
             ctx.rule(r, d)
@@ -443,9 +514,18 @@ def run(ctx):
             for s1, s2, fam, bad in sibling_slips(fn):
                 ctx.violation(Finding('R-SIBLING', rp, q, s2, 'this statement mirrors `%s` with %s swapped for %s, but %r was left as it is: the %s value is computed from the %s input' % (
                     norm(s1)[:50], fam[0], fam[1], bad[0][1], fam[1], fam[0])), oid='generic:%s:%s' % (q, norm(s2)[:40]))
+            for n_, nm_ in falsy_fill_tests(fn):
+                from . import api
+                ctx.violation(Finding('R-NONEGUARD', rp, q, api.stmt_of(n_), 'the fill value %s is used as a truth value (%s): a fill value of 0 counts as "none given", so the variable is created unmasked '
+                                      'and the data under the mask are exposed' % (nm_, norm(n_.test if hasattr(n_, 'test') else n_)[:50])), oid='generic:%s:fill:%s' % (q, nm_))
+            for n_ in ast.walk(fn):
+                if isinstance(n_, ast.Attribute) and n_.attr == 'seconds' and isinstance(n_.value, ast.BinOp) and isinstance(n_.value.op, ast.Sub) and isinstance(n_.ctx, ast.Load):
+                    from . import api
+                    ctx.violation(Finding('R-TDSECONDS', rp, q, api.stmt_of(n_), '`%s`: timedelta.seconds is the part below one day; an elapsed time of more than 24 h wraps around (use total_seconds())' % norm(n_)[:60]),
+                                  oid='generic:%s:tdseconds' % q)
             for st, pn in truthy_numeric_defaults(fn):
-                ctx.violation(Finding('R-NONEGUARD', rp, q, st, 'the optional parameter %s is defaulted by truthiness (%s) although it is used as a number: a requested 0 (midnight, first layer, empty length) '
-                                      'is silently replaced by the default' % (pn, norm(st)[:50])), oid='generic:%s:%s' % (q, pn))
+                ctx.violation(Finding('R-NONEGUARD', rp, q, st, 'the optional parameter %s is defaulted by truthiness (%s) although a falsy value is a legitimate request: 0 (midnight, first layer), the empty dimension tuple '
+                                      'of a scalar variable ... is silently replaced by the default' % (pn, norm(st)[:50])), oid='generic:%s:%s' % (q, pn))
             for n_ in ast.walk(fn):
                 if isinstance(n_, ast.BoolOp) and isinstance(n_.op, ast.Or) and isinstance(n_.values[0], ast.Call) and \
                         (dotted(n_.values[0].func) == 'getattr' or (isinstance(n_.values[0].func, ast.Attribute) and n_.values[0].func.attr == 'get')) \
@@ -466,6 +546,9 @@ def run(ctx):
             for st_, red_ in reduced_default_dtype(fn):
                 ctx.violation(Finding('R-DTYPEFULL', rp, q, st_, 'the type used when no dtype is requested is reduced to %s: the item width of a fixed-width text type (S8, U5) is not part of it, so the copy '
                                       'holds only the first character of every element' % red_), oid='generic:%s:dtype' % q)
+            for st_, txt_ in kind_as_typecode(fn):
+                ctx.violation(Finding('R-DTYPEFULL', rp, q, st_, 'the type code is taken from the kind of the dtype (%s): the kind letter names the 4-byte type of that kind, so float64 is declared as '
+                                      'float32 and int8 / int16 / int64 as int32, and the data are cast on the way' % txt_), oid='generic:%s:kind' % q)
             for a_, b_ in broken_swaps(fn):
                 ctx.violation(Finding('R-SWAP', rp, q, b_, '`%s` follows `%s`: it reads the element the first statement has just overwritten, so both positions end up with the same value' % (norm(b_)[:40], norm(a_)[:40])),
                               oid='generic:%s:%s' % (q, norm(b_)[:40]))
@@ -474,7 +557,7 @@ def run(ctx):
                 ctx.violation(Finding('R-ONESHOT', rp, q, api.stmt_of(use), '%s is a one-shot iterator (%s) and is consumed again here: the second pass sees nothing' % (g, norm(st.value)[:40])),
                               oid='generic:%s:%s' % (q, g))
     ok_note = '%d functions, %d parameters in %d anchored files' % (nfun, npar, len(files))
-    for r in ('R-PARAMUSED', 'R-NOSTATE', 'R-ELEMENTWISE', 'R-CALLED', 'R-ONESHOT', 'R-MODSTATE', 'R-SIBLING', 'R-CLASSSTATE', 'R-NONEGUARD', 'R-SWAP', 'R-STALEVAR', 'R-GUARDOBJ', 'R-FALSYDEFAULT', 'R-ATTRALIAS', 'R-DTYPEFULL'):
+    for r in ('R-PARAMUSED', 'R-NOSTATE', 'R-ELEMENTWISE', 'R-CALLED', 'R-ONESHOT', 'R-MODSTATE', 'R-SIBLING', 'R-CLASSSTATE', 'R-NONEGUARD', 'R-SWAP', 'R-STALEVAR', 'R-GUARDOBJ', 'R-FALSYDEFAULT', 'R-ATTRALIAS', 'R-DTYPEFULL', 'R-TDSECONDS'):
         if not any(o['rule'] == r and o['status'] == 'violated' and str(o.get('id', '')).startswith('generic:') for o in ctx.obligations):
             ctx.ok(r, 'generic:%s' % r, 'anchored files of %s' % ctx.prop, ok_note)
     ctx.count('functions under the generic rules', nfun)
